@@ -1,7 +1,179 @@
-(* C16 — statements only. *)
-From Coq Require Import String.
-From DS Require Import Base.Prelude Model.AlayModel Model.AlayGolden Gen.AlayLayout Proofs.AlayProofs.
+(* C16 — Every ACU status frame is complete, correctly laid out, mirrors the subsystems.
+   Statements only; every proof is `exact` of a lemma in Proofs/Alay*.v.
 
+   Vocabulary (Model/AlayModel.v, Model/AlayWf.v): a status block is a list of bytes; a layout
+   table lists one [field] per property of a status class; [get f b] / [set e f v b] model the
+   property getter / setter ([None] = the setter raised); [layout_ok size t] is the decidable
+   well-formedness of a table (fields inside the block, bit fields in bit order, pairwise disjoint
+   byte ranges or distinct bits of one word, unique names); [accepts e f v] is the documented
+   domain of a field; [stored e f v] is the value an accepted assignment stores.
+   The tables AlayLayout.* are generated from the current source on every run. *)
+From Coq Require Import String.
+From DS Require Import Base.Prelude Base.Bits Model.Utils.
+From DS Require Import Model.AlayModel Model.AlayWf Model.AlayGolden Gen.AlayLayout.
+From DS Require Import Proofs.AlayLists Proofs.AlayProofs Proofs.AlayFrame Proofs.AlayInst Proofs.AlayLimits.
+
+(* ---------- the tie: generated layout = committed Golden layout ---------- *)
 Theorem C16_gen_is_golden_gs : AlayLayout.gs_table = AlayGolden.gs_table /\ AlayLayout.gs_size = AlayGolden.gs_size.
-Proof. exact gen_is_golden_gs. Qed.
+Proof. exact gen_golden_gs. Qed.
 Print Assumptions C16_gen_is_golden_gs.
+Theorem C16_gen_is_golden_axis : AlayLayout.axis_table = AlayGolden.axis_table /\ AlayLayout.axis_size = AlayGolden.axis_size.
+Proof. exact gen_golden_axis. Qed.
+Print Assumptions C16_gen_is_golden_axis.
+Theorem C16_gen_is_golden_motor : AlayLayout.motor_table = AlayGolden.motor_table /\ AlayLayout.motor_size = AlayGolden.motor_size.
+Proof. exact gen_golden_motor. Qed.
+Print Assumptions C16_gen_is_golden_motor.
+Theorem C16_gen_is_golden_ps : AlayLayout.ps_table = AlayGolden.ps_table /\ AlayLayout.ps_size = AlayGolden.ps_size.
+Proof. exact gen_golden_ps. Qed.
+Print Assumptions C16_gen_is_golden_ps.
+Theorem C16_gen_is_golden_fs : AlayLayout.fs_table = AlayGolden.fs_table /\ AlayLayout.fs_size = AlayGolden.fs_size.
+Proof. exact gen_golden_fs. Qed.
+Print Assumptions C16_gen_is_golden_fs.
+Theorem C16_gen_is_golden_frame :
+  AlayLayout.frame_size = AlayGolden.frame_size /\ AlayLayout.start_flag = AlayGolden.start_flag /\
+  AlayLayout.end_flag = AlayGolden.end_flag /\ AlayLayout.length_field = AlayGolden.length_field /\
+  AlayLayout.block_order = AlayGolden.block_order /\ AlayLayout.clock_read = AlayGolden.clock_read.
+Proof. exact gen_golden_frame. Qed.
+Print Assumptions C16_gen_is_golden_frame.
+Theorem C16_gen_is_golden_env :
+  AlayLayout.env_AZ = AlayGolden.env_AZ /\ AlayLayout.env_EL = AlayGolden.env_EL /\
+  AlayLayout.env_CW = AlayGolden.env_CW /\ AlayLayout.env_default = AlayGolden.env_default.
+Proof. exact gen_golden_env. Qed.
+Print Assumptions C16_gen_is_golden_env.
+
+(* ---------- the generated tables are well formed and leave no hole in any block ---------- *)
+Theorem C16_layout_ok :
+  layout_ok AlayLayout.gs_size AlayLayout.gs_table = true /\
+  layout_ok AlayLayout.axis_size AlayLayout.axis_table = true /\
+  layout_ok AlayLayout.motor_size AlayLayout.motor_table = true /\
+  layout_ok AlayLayout.ps_size AlayLayout.ps_table = true /\
+  layout_ok AlayLayout.fs_size AlayLayout.fs_table = true.
+Proof. exact (conj gs_ok (conj axis_ok (conj motor_ok (conj ps_ok fs_ok)))). Qed.
+Print Assumptions C16_layout_ok.
+
+Theorem C16_no_gaps :
+  tiles AlayLayout.gs_size AlayLayout.gs_table && tiles AlayLayout.axis_size AlayLayout.axis_table &&
+  tiles AlayLayout.motor_size AlayLayout.motor_table && tiles AlayLayout.ps_size AlayLayout.ps_table &&
+  tiles AlayLayout.fs_size AlayLayout.fs_table = true.
+Proof. exact all_tile. Qed.
+Print Assumptions C16_no_gaps.
+
+(* ---------- accessors, for every table, field, block, value ---------- *)
+(* a setter never changes the size of the block *)
+Theorem C16_set_preserves_length : forall e f v b b', set e f v b = Some b' -> length b' = length b.
+Proof. exact set_preserves_length. Qed.
+Print Assumptions C16_set_preserves_length.
+
+Theorem C16_set_preserves_bytes : forall size f, field_ok size f = true -> forall e b, length b = size -> bytes b ->
+  forall v b', set e f v b = Some b' -> bytes b'.
+Proof. exact set_preserves_bytes. Qed.
+Print Assumptions C16_set_preserves_bytes.
+
+(* after an accepted assignment the getter of that field returns the stored value *)
+Theorem C16_get_set_same : forall size f, field_ok size f = true -> forall e b, length b = size -> bytes b ->
+  forall v b', set e f v b = Some b' -> exists w, stored e f v = Some w /\ get f b' = Some w.
+Proof. exact get_set_same. Qed.
+Print Assumptions C16_get_set_same.
+
+(* ... which is the assigned value itself for every canonical value: booleans, unsigned and signed
+   integers (inside the axis limits +-1 for the clamped positions), doubles (bit patterns), full
+   bit lists, non-negative version pairs *)
+Theorem C16_numeric_field_decodes_to_value_assigned : forall size f e b v b',
+  field_ok size f = true -> length b = size -> bytes b ->
+  canonical e f v -> set e f v b = Some b' -> get f b' = Some v.
+Proof. exact canonical_read_back. Qed.
+Print Assumptions C16_numeric_field_decodes_to_value_assigned.
+
+(* assigning one field changes the value of no other (settable) field of the table *)
+Theorem C16_get_set_other : forall size f g, field_ok size f = true -> field_ok size g = true ->
+  compat f g = true -> is_view g = false ->
+  forall e b, length b = size -> bytes b -> forall v b', set e f v b = Some b' -> get g b' = get g b.
+Proof. exact get_set_other. Qed.
+Print Assumptions C16_get_set_other.
+
+Theorem C16_table_fields_compatible : forall size t, layout_ok size t = true ->
+  forall f g, In f t -> In g t -> fname f <> fname g ->
+  field_ok size f = true /\ field_ok size g = true /\ compat f g = true.
+Proof.
+  exact (fun size t H f g Hf Hg Hn =>
+           conj (table_field_ok size t H f Hf) (conj (table_field_ok size t H g Hg) (table_compat size t H f g Hf Hg Hn))).
+Qed.
+Print Assumptions C16_table_fields_compatible.
+
+(* a value outside the documented domain (wrong type, code not listed, out of range) is refused *)
+Theorem C16_set_refuses_out_of_domain : forall size f, field_ok size f = true -> forall e b,
+  length b = size -> bytes b -> forall v, ~ accepts e f v -> set e f v b = None.
+Proof. exact set_refuses_out_of_domain. Qed.
+Print Assumptions C16_set_refuses_out_of_domain.
+
+(* ---------- every reachable block of a System: size, bytes, documented codes ---------- *)
+Theorem C16_enum_invariant_step : forall size t, layout_ok size t = true -> forall e f v b b',
+  In f t -> length b = size -> bytes b -> enum_ok t b = true -> set e f v b = Some b' -> enum_ok t b' = true.
+Proof. exact enum_ok_preserved. Qed.
+Print Assumptions C16_enum_invariant_step.
+
+Theorem C16_system_blocks_good : forall k d b0 ops,
+  nth_error sys_desc k = Some d -> nth_error AlayLayout.init_blocks k = Some b0 ->
+  good (d_size d) (d_table d) (run_sets (d_table d) (d_env d) ops b0).
+Proof. exact system_blocks_good. Qed.
+Print Assumptions C16_system_blocks_good.
+
+(* ---------- the frame ---------- *)
+Theorem C16_frame_constants :
+  AlayLayout.frame_size = 813%nat /\ AlayLayout.length_field = 813 /\
+  offsets 12 block_sizes = [12; 37; 129; 221; 313; 340; 367; 394; 421; 448; 475; 502; 529; 556; 583; 610; 637;
+                            664; 793]%nat /\
+  (12 + fold_right Nat.add 0 block_sizes + 4 = 813)%nat /\ length sys_desc = 19%nat.
+Proof. exact frame_constants. Qed.
+Print Assumptions C16_frame_constants.
+
+Theorem C16_frame_published : forall f0 ms blocks, frame0 = Some f0 -> 0 <= ms < 2 ^ 32 ->
+  map (@length Z) blocks = block_sizes ->
+  exists fr, frame_update f0 ms blocks = Some fr /\
+    length fr = 813%nat /\
+    slice 0 4 fr = AlayLayout.start_flag /\
+    bytes_to_uint (slice 4 4 fr) true = Some 813 /\
+    bytes_to_uint (slice 8 4 fr) true = Some ms /\
+    slice 809 4 fr = AlayLayout.end_flag /\
+    (forall k o blk, nth_error (offsets 12 block_sizes) k = Some o -> nth_error blocks k = Some blk ->
+       slice o (length blk) fr = blk).
+Proof. exact frame_published. Qed.
+Print Assumptions C16_frame_published.
+
+Theorem C16_clock_read_is_actTime :
+  match find_field AlayLayout.ps_table "actTime"%string with
+  | Some f => AlayLayout.clock_read = (664 + foff f, 664 + foff f + flen f)%nat /\ fkind f = KReal64
+  | None => False
+  end.
+Proof. exact clock_read_is_actTime. Qed.
+Print Assumptions C16_clock_read_is_actTime.
+
+(* ---------- limit and rate warning bits agree with position and velocity ---------- *)
+Theorem C16_limit_bits_agree : forall e b b', length b = AlayLayout.axis_size -> bytes b ->
+  update_status_master AlayLayout.axis_table e b = Some b' ->
+  exists p v,
+    get_int AlayLayout.axis_table "p_Ist" b' = Some p /\ get_int AlayLayout.axis_table "v_Ist" b' = Some v /\
+    get_int AlayLayout.axis_table "p_Ist" b = Some p /\ get_int AlayLayout.axis_table "v_Ist" b = Some v /\
+    getn AlayLayout.axis_table "Pre_Limit_Dn" b' = Some (VBool (p <=? pos_lo e)) /\
+    getn AlayLayout.axis_table "Fin_Limit_Dn" b' = Some (VBool (p <? pos_lo e)) /\
+    getn AlayLayout.axis_table "Pre_Limit_Up" b' = Some (VBool (pos_hi e <=? p)) /\
+    getn AlayLayout.axis_table "Fin_Limit_Up" b' = Some (VBool (pos_hi e <? p)) /\
+    getn AlayLayout.axis_table "Rate_Limit" b' = Some (VBool (v_max e <? Z.abs v)).
+Proof. exact limit_bits_agree. Qed.
+Print Assumptions C16_limit_bits_agree.
+
+(* ---------- non-vacuity ---------- *)
+Example C16_ex_set_get :
+  let b0 := repeat 0 92 in
+  match setn AlayLayout.axis_table AlayLayout.env_AZ "p_Ist" (VInt 180000000) b0 with
+  | Some b1 => getn AlayLayout.axis_table "p_Ist" b1 = Some (VInt 180000000) /\
+               slice 26 4 b1 = [0; 149; 186; 10] /\
+               setn AlayLayout.axis_table AlayLayout.env_AZ "axis_state" (VInt 9) b1 = None
+  | None => False
+  end.
+Proof. vm_compute. repeat split; reflexivity. Qed.
+
+Example C16_ex_frame : exists f0 fr, frame0 = Some f0 /\
+  frame_update f0 12345 AlayLayout.init_blocks = Some fr /\ length fr = 813%nat /\
+  map (@length Z) AlayLayout.init_blocks = block_sizes.
+Proof. eexists. eexists. repeat split; vm_compute; reflexivity. Qed.
